@@ -26,10 +26,15 @@ def str_method(B, st, s, name, args, kwargs, node):
         ensure_lower_axioms(B)
         return VStr(f(t))
     if name == "isspace":
-        # non-empty and every character is whitespace (ASCII whitespace; other Unicode spaces are assumed absent)
-        k = z3.Int("wk!")
-        n = z3.Length(t)
-        return VBool(z3.And(n > 0, z3.ForAll([k], z3.Implies(z3.And(k >= 0, k < n), is_space_char(z3.SubString(t, k, 1))))))
+        # uninterpreted predicate of the string (non-empty and all characters are whitespace in CPython); the only
+        # fact used is that a whitespace string is not empty
+        f = z3.Function("str_isspace", z3.StringSort(), z3.BoolSort())
+        if not getattr(B, "_isspace_ax", False):
+            B._isspace_ax = True
+            x = z3.String("isp!")
+            B.eng.axioms.append(z3.ForAll([x], z3.Implies(f(x), z3.Length(x) > 0), patterns=[f(x)]), keys={"str_isspace"})
+            B.eng.used_assumptions.add("str.isspace(): an uninterpreted predicate of the string, false for the empty string")
+        return VBool(f(t))
     if name in ("strip", "lstrip", "rstrip"):
         if args:
             raise E.Unsupported("strip with argument", node)
